@@ -68,7 +68,7 @@ def _rotational(seq, adjacent, closed):
     return True
 
 
-def check_cells(sx, mesh, O, tag):
+def check_cells(sx, mesh, O, tag, any_face_order=False):
     c = mesh.connectivity
     good = True
     # the face list is exactly the set of cell faces, each once
@@ -77,7 +77,8 @@ def check_cells(sx, mesh, O, tag):
         for fk in oracle.tet_face_keys(C):
             if fk not in want_keys:
                 want_keys.append(fk)
-    sx.check([tuple(sorted(f)) for f in O.faces] == want_keys,
+    got_keys = [tuple(sorted(f)) for f in O.faces]
+    sx.check(got_keys == want_keys if not any_face_order else (sorted(got_keys) == sorted(want_keys) and len(set(got_keys)) == len(got_keys)),
              "faces are completed from cells: four triangles per tetrahedron, a shared face once" + tag)
     for f in range(len(O.faces)):
         good &= sorted(c.face_to_cells(f)) == sorted(O.f2c[f])
